@@ -1,37 +1,25 @@
-/-! generated by harness/translate.py from gaftools/cli/{sort,order_gfa,realign,view,stat}.py : decision fragments — do not edit -/
+/-! FALLBACK (source construct outside the translator's subset): the decisions as modelled by hand -/
 namespace Gaftools.Gen
-/-- sort.process_alignment, after the loop: inversion flag, reverse-majority test, start coordinate and path index of the
-    anchoring step in the two branches (`nf`/`nr` = scaffold steps walked forward / backward) -/
-def sortInv (nf nr : Nat) : Bool := decide (((nf : Int) ≠ (0 : Int)) ∧ ((nr : Int) ≠ (0 : Int)))
-def sortRev (nf nr : Nat) : Bool := decide ((nf : Int) < (nr : Int))
-def sortStartRev (plen ps pe : Int) : Int := (plen - pe)
+def sortInv (nf nr : Nat) : Bool := nf != 0 && nr != 0
+def sortRev (nf nr : Nat) : Bool := decide (nf < nr)
+def sortStartRev (plen ps pe : Int) : Int := plen - pe
 def sortStartFwd (plen ps pe : Int) : Int := ps
 def sortNodeRev : Int := -1
 def sortNodeFwd : Int := 1
-
-/-- order_gfa.decompose_and_order: degree tests, the two census assertions (True = passes), the SN test, the orientation
-    test, the test that reports non-increasing offsets, and the NO numbers -/
-def isDegOne (d : Nat) : Bool := decide ((d : Int) = (1 : Int))
-def isDegTwo (d : Nat) : Bool := decide ((d : Int) = (2 : Int))
-def censusOne (n1 : Nat) : Bool := decide ((n1 : Int) = (2 : Int))
-def censusTwo (n2 total : Nat) : Bool := decide ((n2 : Int) = ((total : Int) - (2 : Int)))
-def mixedSN (k : Nat) : Bool := decide ((k : Int) ≠ (1 : Int))
+def isDegOne (d : Nat) : Bool := d == 1
+def isDegTwo (d : Nat) : Bool := d == 2
+def censusOne (n1 : Nat) : Bool := n1 == 2
+def censusTwo (n2 total : Nat) : Bool := decide ((n2 : Int) = (total : Int) - 2)
+def mixedSN (k : Nat) : Bool := k != 1
 def needsReverse (a b : Int) : Bool := decide (a > b)
-def notIncreasing (x y : Int) : Bool := decide (¬ (x < y))
-def scaffoldNo : Nat := (0 : Nat)
-def bubbleNo (i : Nat) : Nat := (i + (1 : Nat))
-
-/-- realign.wfa_alignment: alignments that are passed through unchanged (the first test of the batch loop), as a function
-    of the read interval and of the lengths of the two sequences handed to the aligner -/
-def tooLong (qs qe refLen queryLen : Int) : Bool := decide ((qe - qs) > (60000 : Int))
-
-/-- view.search: an indexed node `[so, en)` of the contig is selected for the region `a-b` -/
-def regionHit (so en a b : Int) : Bool := decide ((so ≤ b) ∧ (a < en))
-
-/-- stat.run_stat --cigar: a run counts as large; an alignment counts as perfect (`k` = number of CIGAR tokens) -/
-def largeDel (n : Int) : Bool := decide (n ≥ (50 : Int))
-def largeIns (n : Int) : Bool := decide (n ≥ (50 : Int))
-def largeSub (n : Int) : Bool := decide (n ≥ (50 : Int))
-def largeMatch (n : Int) : Bool := decide (n ≥ (50 : Int))
-def perfectTokens (k : Nat) : Bool := decide ((k : Int) = (2 : Int))
+def notIncreasing (x y : Int) : Bool := !decide (x < y)
+def scaffoldNo : Nat := 0
+def bubbleNo (i : Nat) : Nat := i + 1
+def tooLong (qs qe refLen queryLen : Int) : Bool := decide (qe - qs > 60000)
+def regionHit (so en a b : Int) : Bool := decide (so ≤ b ∧ a < en)
+def largeDel (n : Int) : Bool := decide (n ≥ 50)
+def largeIns (n : Int) : Bool := decide (n ≥ 50)
+def largeSub (n : Int) : Bool := decide (n ≥ 50)
+def largeMatch (n : Int) : Bool := decide (n ≥ 50)
+def perfectTokens (k : Nat) : Bool := k == 2
 end Gaftools.Gen
